@@ -129,13 +129,17 @@ Theorem scan_regions_wf u s : regions_wf s (scan_regions u s) = true.
 Proof. exact (scan_go_wf u s [] O false). Qed.
 
 (* ------------------------------------------------------------------ scanner vs reference lexer *)
-(* a \w character is a word character for the lexer as well *)
-Lemma word_char_lex u c : is_word_char u c = true -> lex_word_char c = true.
+(* at a head that is not a prefix letter the regular expression and the lexer start the same thing, whatever the
+   word-boundary flags are *)
+Lemma match_ref_nonprefix pw pl r : match r with c :: _ => is_prefix_char c = false | [] => True end ->
+  match_at pw r = ref_match_at pl r.
 Proof.
-  unfold is_word_char, isalnum, lex_word_char. intros H.
-  destruct (N.ltb_spec c 128) as [Hc|Hc].
-  - apply orb_true_iff in H. destruct H as [H|H]; rewrite H; [reflexivity|rewrite orb_true_r; reflexivity].
-  - destruct (N.leb_spec 128 c); [apply orb_true_r|lia].
+  destruct r as [|c r1]; [reflexivity|]. intros Hp. unfold match_at, ref_match_at. rewrite Hp. cbn [andb].
+  destruct (c =? cHASH); [reflexivity|].
+  cbn [prefixed]. rewrite Hp.
+  destruct (is_quote c) eqn:Hq.
+  - destruct (string_at (c :: r1)); reflexivity.
+  - unfold string_at. rewrite Hq. reflexivity.
 Qed.
 
 (* the word-boundary flag only matters in front of a prefix letter *)
@@ -147,68 +151,59 @@ Proof.
   right. rewrite andb_false_r. reflexivity.
 Qed.
 
-Lemma prefixed_head_prefix k c r1 p0 m : prefixed k (c :: r1) = Some (p0, m) -> is_prefix_char c = true ->
-  exists p', p0 = S p'.
+Lemma match_eqb_eq a b : match_eqb a b = true -> a = b.
 Proof.
-  intros H Hp. destruct k as [|k]; cbn [prefixed] in H; rewrite Hp in H; [discriminate|].
-  destruct (prefixed k r1) as [[p' m']|]; [|discriminate]. cbn in H. injection H as <- <-. exists p'. reflexivity.
+  destruct a as [[n pa]|], b as [[m pb]|]; cbn; try discriminate; [|reflexivity].
+  intros H. apply andb_true_iff in H. destruct H as [H1 H2]. apply Nat.eqb_eq in H1. subst m.
+  destruct pa as [x|], pb as [y|]; try discriminate; [|reflexivity].
+  apply text_eqb_eq in H2. subst. reflexivity.
 Qed.
 
-Lemma scan_ref_lockstep u : forall r p skip pw pl, (pw = true -> pl = true) ->
-  forallb region_clean (scan_ext_go u r p skip pw pl) = true ->
-  scan_go u r p skip pw = ref_go r p skip pl.
+Lemma scan_ref_lockstep u : forall r p skip pw pl,
+  lex_sane_go u r skip pw pl = true -> scan_go u r p skip pw = ref_go r p skip pl.
 Proof.
-  induction r as [|c r1 IH]; intros p skip pw pl Hinv H; [reflexivity|].
-  cbn [scan_go ref_go scan_ext_go] in *.
-  assert (Hnext : is_word_char u c = true -> lex_word_char c = true) by apply word_char_lex.
-  destruct skip as [|k]; [|apply IH; assumption].
-  unfold ref_match_at.
-  destruct (match_at pw (c :: r1)) as [[n pre]|] eqn:E.
-  - destruct (match_at_flag pw (c :: r1)) as [E'|E']; [congruence|]. rewrite <- E', E.
-    cbn [forallb] in H. apply andb_true_iff in H. destruct H as [Hc H].
-    unfold region_clean in Hc. cbn [fst snd r_prefix] in Hc.
-    destruct pre as [[|x pre']|].
-    + f_equal. apply IH; assumption.
-    + rewrite Hc. f_equal. apply IH; assumption.
-    + f_equal. apply IH; assumption.
-  - (* rope finds nothing here: either nothing matches at all, or a prefix letter follows a word character, and then
-       the reference (whose word characters include the \w characters) rejects it too *)
-    assert (Href : match match_at false (c :: r1) with
-                   | Some (n, Some pre) => match pre with
-                                           | [] => Some (n, Some pre)
-                                           | _ :: _ => if negb pl && legal_prefix pre then Some (n, Some pre) else None
-                                           end
-                   | other => other end = None).
-    { unfold match_at in *. destruct (c =? cHASH); [discriminate|].
-      destruct (is_prefix_char c) eqn:Hp; cbn [andb] in *.
-      - destruct pw.
-        + rewrite (Hinv eq_refl). cbn [negb andb].
-          (* the prefix cannot be empty when the head is a prefix letter *)
-          destruct (prefixed 4 (c :: r1)) as [[p0 m]|] eqn:Ep; [|reflexivity].
-          destruct (prefixed_head_prefix _ _ _ _ _ Ep Hp) as [p' ->]. cbn [firstn]. reflexivity.
-        + rewrite E. reflexivity.
-      - rewrite E. reflexivity. }
-    rewrite Href. apply IH; assumption.
+  induction r as [|c r1 IH]; intros p skip pw pl H; [reflexivity|].
+  cbn [scan_go ref_go lex_sane_go] in *.
+  destruct skip as [|k]; [|apply IH; exact H].
+  apply andb_true_iff in H. destruct H as [Hm H].
+  assert (E : match_at pw (c :: r1) = ref_match_at pl (c :: r1)).
+  { destruct (is_prefix_char c) eqn:Hp; cbn [negb orb] in Hm.
+    - apply match_eqb_eq. exact Hm.
+    - apply match_ref_nonprefix. exact Hp. }
+  rewrite <- E. destruct (match_at pw (c :: r1)) as [[n pre]|]; [f_equal|]; apply IH; exact H.
 Qed.
 
-Theorem regions_are_tokens_partial u s : prefix_sane u s = true -> scan_regions u s = ref_regions s.
-Proof. intros H. apply (scan_ref_lockstep u s 0 O false false); [discriminate|exact H]. Qed.
+Theorem regions_are_tokens_partial u s : lex_sane u s = true -> scan_regions u s = ref_regions s.
+Proof. intros H. apply (scan_ref_lockstep u s 0 O false false). exact H. Qed.
 
 (* x = a or"s"  : before commit 704800d the region started inside the keyword; now rope, the reference and the tokenizer agree *)
 Definition glued_witness : text :=
   [120; 32; 61; 32; 97; 32; 111; 114; 34; 115; 34; 10].
 
 Example prefix_glued_fixed :
-  prefix_sane (table_of [] [] []) glued_witness = true
+  lex_sane (table_of [] [] []) glued_witness = true
   /\ scan_regions (table_of [] [] []) glued_witness = [(8, 11, Some [])].
 Proof. vm_compute. split; reflexivity. Qed.
 
-(* the remaining side condition is not vacuous-by-default: an illegal prefix spelling still separates rope from the lexer
-   (only on texts that are not valid programs):  bb"x"  *)
+(* the side condition cannot be dropped: an illegal prefix spelling still separates rope from the lexer
+   (only on texts that are not valid programs):  bb<dq>x<dq>  *)
 Theorem prefix_spelling_refuted : exists s, scan_regions (table_of [] [] []) s <> ref_regions s.
 Proof. exists [98; 98; 34; 120; 34]. vm_compute. discriminate. Qed.
 
-Example prefix_sane_example :
-  prefix_sane (table_of [] [] []) [120; 32; 61; 32; 114; 98; 34; 97; 34; 32; 35; 32; 99; 10] = true          (* x = rb"a" # c *)
-  /\ scan_regions (table_of [] [] []) [120; 32; 61; 32; 114; 98; 34; 97; 34; 32; 35; 32; 99; 10] = [(4, 9, Some [114; 98]); (10, 13, None)].
+(* ... and, on a VALID program, the nesting of Python 3.12 f-strings (open finding):  x = f<dq>{d[<dq>k<dq>]}<dq>
+   the lexer has one f-literal 4..15, the regular expression two regions *)
+Definition fnest_witness : text :=
+  [120; 32; 61; 32; 102; 34; 123; 100; 91; 34; 107; 34; 93; 125; 34; 10].
+
+Theorem fstring_nesting_refuted :
+  ref_regions fnest_witness = [(4, 15, Some [102])]
+  /\ scan_regions (table_of [] [] []) fnest_witness = [(4, 10, Some [102]); (11, 15, Some [])]
+  /\ lex_sane (table_of [] [] []) fnest_witness = false.
+Proof. vm_compute. repeat split; reflexivity. Qed.
+
+Example lex_sane_example :
+  (* x = rb<dq>a<dq> + f<dq>{d[<sq>k<sq>]:>{w}}<dq> # c *)
+  let s := [120; 32; 61; 32; 114; 98; 34; 97; 34; 32; 43; 32; 102; 34; 123; 100; 91; 39; 107; 39; 93; 58; 62; 123; 119; 125; 125; 34; 32; 35; 32; 99; 10] in
+  lex_sane (table_of [] [] []) s = true
+  /\ scan_regions (table_of [] [] []) s = [(4, 9, Some [114; 98]); (12, 28, Some [102]); (29, 32, None)].
 Proof. vm_compute. split; reflexivity. Qed.
